@@ -20,6 +20,12 @@
                                                        [C06_extend_behind_marker]
      and a pass sends only what was in front of its marker: e2 for the scheduler
      whose pass is running                             [C06_pass_sends_only_front]
+     e2 as a forward invariant over all eleven functions and all programs: a doer
+     sheltered behind the marker of a scheduler on the call stack (or of the root),
+     directly or through suspended DoDoers, gets no Recur before a new Enter; extend()
+     shelters its new doers iff the target is such a scheduler or is sheltered itself;
+     exact time: after the root pass every Recur is at least one tock later
+       [C06_sheltered_no_recur, C06_extend_shelters, C06_pass_shelter, C06_next_recur_later]
      r1, r2, m for remove                              [C06_remove]
      m for extend: doers' = doers ++ new               [C06_extend_window, last clause]
    e2 in full is FALSE of the code (open finding D42: extending a DoDoer that has
@@ -33,7 +39,7 @@
 From Hio Require Import Base.Prelude Base.AMap Base.Time Model.Sched Proofs.SchedLife Proofs.SchedTop
   Proofs.SchedDeque Proofs.SchedDequeHold Proofs.SchedDequeAll Proofs.SchedDequeUniq Proofs.SchedDequeOrder
   Proofs.SchedDequeEffects Proofs.SchedDequeTop Proofs.SchedDequeTop2 Proofs.SchedDequeEpos Proofs.SchedDequeSortB
-  Proofs.SchedDequePass Proofs.SchedDequeMembers.
+  Proofs.SchedDequePass Proofs.SchedDequeMembers Proofs.SchedDequeRoot0 Proofs.SchedDequeShelter Proofs.SchedDequeShelter2.
 
 (* one extend(): new := the not-present doers, deduplicated; they are entered
    (running their first resumption) with the tyme unchanged, every event of the
@@ -138,6 +144,87 @@ Example C06_pass_example :
   snd (loop_sent 1%Z 50 w_pass 0%N) = [1; 2]%N /\
   dids (dq (fst (fst (loop_sent 1%Z 50 w_pass 0%N))) 0%N) = [7; 1; 2]%N.
 Proof. vm_compute. repeat split. Qed.
+
+(* e2, the forward invariant, for ALL programs (extend included), every time instance.
+   Fix a doer j, a set Pr of protected schedulers (each executing, or the root) and
+   the definitions d (d 0 = None).  j is SHELTERED in state s w.r.t. a hand C
+   ([hang s Pr (Lf d) C j]) when the deed holding it hangs, through deques of
+   suspended DoDoers, from: behind the marker of a protected scheduler, a deque
+   that is never processed (of a leaf), or the hand C (deeds about to be closed).
+   [PJ j Pr (Lf d) a s C]: since state a no Recur of j was emitted before a new
+   Enter of j ([nrbe]), and j is entered anew, or not alive, or executing, or
+   sheltered.  The invariant is preserved by all eleven interpreter functions
+   (never operating on a protected scheduler): a sheltered doer can only be closed. *)
+Theorem C06_sheltered_no_recur :
+  forall (T : Type) (TT : Time T) (tk : T) (j : id) (Pr : id -> Prop) (d : amap (fdef T)),
+    get d j <> None -> get d 0%N = None -> forall f, shel_at tk j Pr d f.
+Proof. intros. now apply shelter_all. Qed.
+Print Assumptions C06_sheltered_no_recur.
+
+(* how to read the trace part: no new Enter of j in the segment, then no Recur of j *)
+Theorem C06_no_enter_no_recur :
+  forall (T : Type) (j : id) (seg : list (ev T)),
+    nrbe j seg -> ~ has_enter j seg -> forall e, In e seg -> is_recur_of j e = false.
+Proof. intros. eapply nrbe_no_enter; eassumption. Qed.
+Print Assumptions C06_no_enter_no_recur.
+
+(* THE CLASS: extend() shelters the new doers exactly when its target t is a
+   protected scheduler whose pass is under way (marker in its deque: the scheduler
+   the caller runs under, or any scheduler further up, or the root) or is itself
+   sheltered (a DoDoer that has already had its pass in this cycle).  D42 is the
+   complement: t suspended in FRONT of a marker (not yet had its pass). *)
+Theorem C06_extend_shelters :
+  forall (T : Type) (Pr : id -> Prop) (d : amap (fdef T)) (s1 : st T) (t : id) (dl : list id)
+         (acc : list (deed T)) (C : list id) (k : id),
+    In k (dids acc) ->
+    (Pr t /\ exists u r, dq s1 t = u ++ DMark :: r /\ mf u) \/ hang s1 Pr (Lf d) C t ->
+    hang (set_sched s1 t {| doers := dl; deeds := dq s1 t ++ acc |}) Pr (Lf d) C k.
+Proof. intros. now apply extend_shelters. Qed.
+Print Assumptions C06_extend_shelters.
+
+(* the rest of the pass of a protected scheduler x itself (x a DoDoer or the root):
+   no Recur of a sheltered j before a new Enter of j *)
+Theorem C06_pass_shelter :
+  forall (T : Type) (TT : Time T) (tk : T) (j : id) (Pr : id -> Prop) (d : amap (fdef T)),
+    get d j <> None -> get d 0%N = None ->
+    forall f a s X C x (u rr : list (deed T)) s' r,
+      HP Pr d s -> Hold2 s X -> incl C X -> Pr x -> (isnest d x = true \/ x = 0%N) ->
+      dq s x = u ++ DMark :: rr -> mf u -> PJ j Pr (Lf d) a s C ->
+      recur_loop tk f s x = (s', r) -> oof s' = false -> NRj j a s'.
+Proof. intros. eapply loop_shelter; eassumption. Qed.
+Print Assumptions C06_pass_shelter.
+
+(* exact time, tock >= 0: every Recur event emitted after a root pass that started
+   at tyme τ carries a tyme >= τ + tock; with tock > 0: strictly later.  Together
+   with C06_pass_shelter for x = 0: a doer added to the Doist by extend() during a
+   cycle at tyme τ (hence sheltered: C06_extend_shelters) has, unless it is removed
+   and entered anew, its first Recur at a tyme >= τ + tock *)
+Theorem C06_next_recur_later :
+  forall (tk : Z) (c fuel : nat) (s : st Z) limit stop s1 r,
+    (0 <= tk)%Z -> recur_pass tk fuel s 0%N = (s1, r) ->
+    exists later, trace (cycle_loop tk (S c) fuel s limit stop) = later ++ trace s1 /\
+                  Forall (fun e => e_kind e = Recur -> (tyme s + tk <= e_tyme e)%Z) later.
+Proof. intros. eapply after_pass_later; eassumption. Qed.
+Print Assumptions C06_next_recur_later.
+
+(* w_prog in its first root pass, right after doer 1 was sent (it extended DoDoer 2
+   with 6, whose enter extended the root with 7): 7 sits behind the root's marker;
+   the rest of the pass recurs 2, 3, 4 and 6 (6: finding D42) but not 7 *)
+Definition w_mid : st Z := fst (gen_send 1%Z 49 (set_deeds w_pass 0%N (tl (dq w_pass 0%N))) 1%N).
+Definition w_mid2 : st Z := set_deeds w_mid 0%N (dq w_mid 0%N ++ [DDeed 1%N 1%Z]).
+Example C06_shelter_example :
+  dq w_mid2 0%N = [DDeed 2%N 0%Z] ++ DMark :: [DDeed 7%N 0%Z; DDeed 1%N 1%Z] /\
+  behind w_mid2 0%N 7%N /\
+  oof (fst (recur_loop 1%Z 48 w_mid2 0%N)) = false /\
+  map e_id (filter (fun e => match e_kind e with Recur => true | _ => false end)
+                   (firstn 4 (trace (fst (recur_loop 1%Z 48 w_mid2 0%N))))) = [6; 4; 3; 2]%N.
+Proof.
+  split; [vm_compute; reflexivity|]. split.
+  - exists [DDeed 2%N 0%Z], [DDeed 7%N 0%Z; DDeed 1%N 1%Z]. split; [vm_compute; reflexivity|]. split.
+    + intros [Hx|[]]. discriminate.
+    + vm_compute. now left.
+  - split; vm_compute; reflexivity.
+Qed.
 
 (* remove() closes in reverse ENTER order wherever the deque is in enter order
    (C02_deques_in_enter_order_partial: always, for programs without extend()) *)
